@@ -41,9 +41,10 @@ SENT_BITS = np.array([SENT]).view(np.uint64)[0]
 #                   h = 1e-5 / (1 + max body angular velocity): relative truncation (h w)^2/6 and round-off eps/(h w) are
 #                   both ~2e-11; states are restricted to |qvel| <= 50, |qacc| <= 1e6 ('violent-state' discards).
 #                   Worst observed 1.7e-9 (a 7-body chain spinning at 28 rad/s).
-#   geom   : 1e-5   collision sensors, closed-form pairs (opt.ccd_tolerance = 1e-6; worst observed 2e-7);
-#            1e-4   pairs without a closed form (reference = the engine's convex solver called with another distmax: its
-#                   GJK/EPA result on curved shapes moves by ~1e-5 with distmax; worst observed 1.1e-5)
+#   geom   : 1e-5   collision sensors, separated pairs with a closed form (opt.ccd_tolerance = 1e-6; worst observed 2e-7);
+#            1e-3   penetrating pairs and pairs without a closed form (EPA depth on curved shapes: 1.6e-5 observed;
+#                   reference without closed form = the engine's solver called with another distmax, moves by ~1e-5):
+#                   narrow-phase accuracy is C15's subject, the sensor law (which pair, sign, cutoff) is what is judged
 #   ray    : 1e-9   rangefinder (worst observed 6e-16)
 # Mutants (mutants/C28) are all caught with these constants.
 
@@ -797,6 +798,33 @@ def main(ck):
           stats.get('samebody_excluded', 0),
       'ccd-concentric: collision sensors with coincident geom centres reaching the main stream (isolation only)':
           sum(v for k, v in stats['cov'].items() if 'concentric-geoms' in k)}
+
+def replay(ck, body):
+  """./verif C28 --replay <violation file of the generated stream>: re-run the case (model xml, state seed, steps)."""
+  import collections
+  import re
+  lib = ck.lib('rel')
+  c = body['case']['case']
+  x = c[0]['xml']
+  i = x.index('<sensor>')
+  sens = []
+  for mt in re.finditer(r'<(\w+)((?: [a-z0-9_]+="[^"]*")*)/>', x[i + 8:x.index('</sensor>')]):
+    attrs = dict(re.findall(r' ([a-z0-9_]+)="([^"]*)"', mt.group(2)))
+    hist = None
+    if 'nsample' in attrs:
+      hist = '+'.join(k for k in ('delay', 'interval') if k in attrs) or 'history'
+    sens.append(dict(xml=mt.group(0), kind=mt.group(1), obj='?', ref='?', cutoff=float(attrs.get('cutoff', 0)),
+                     hist=hist, attrs=attrs))
+  gm = mg.GenModel(x, dict(base_xml=x[:i] + '</mujoco>', sensors=sens))
+  stats = dict(cov=collections.Counter(), worst={}, deep=collections.Counter(), nt=collections.Counter(), cases=0,
+               sensors=0, findings=collections.Counter())
+  stats['nefc>0'] = 0
+  try:
+    check_case(ck, lib, gm, int(c[1]), int(c[2]), stats)
+  except Violation as e:
+    ck.violation('Violation: %s' % e, body['case'], bucket=getattr(e, 'bucket', None))
+  print('replayed: %s' % dict(stats['cov']))
+
 
 LEVEL = 'exploration'
 TECHNIQUE = ('property-based testing (Hypothesis): generated models x generated sensor blocks x generated states, '
